@@ -72,7 +72,15 @@ contains
     type(point), intent(inout) :: pts(n)
     integer(kind=jpim) :: i
     real(kind=jprb) :: s
+    interface
+      subroutine ext_scale(k, f)
+        import :: jpim, jprb
+        integer(kind=jpim), intent(in) :: k
+        real(kind=jprb), intent(inout) :: f
+      end subroutine ext_scale
+    end interface
     s = 0.0_jprb
+    call ext_scale(n, s)
     do i = 1, n
       s = s + pts(i)%x
     end do
@@ -88,7 +96,7 @@ end module geom_mod
 TARGETS = ('module', 'routine', 'sourcefile')
 OPS = ('rename_unit', 'rename_member', 'retype_var', 'add_var', 'remove_var', 'append_comment', 'prepend_assign',
        'replace_assign', 'substitute', 'rescope', 'edit_typedef', 'gc', 'retype_module_var', 'edit_internal',
-       'update_attrs', 'rename_var')
+       'update_attrs', 'rename_var', 'edit_iface')
 
 
 class CloneEngine(Engine):
@@ -341,6 +349,16 @@ class World:
                                                        f'({type(s_).__name__} {getattr(s_, "name", "")}) is not '
                                                        f'linked to its parent scope\'s table')
                 return False
+        ifa = {id(n) for rr in self.routines_of(A) for intf in self.ir.FindNodes(self.ir.Interface).visit(rr.spec)
+               for n in intf.body if hasattr(n, 'spec')}
+        for rr in self.routines_of(B):
+            for intf in self.ir.FindNodes(self.ir.Interface).visit(rr.spec):
+                for n in intf.body:
+                    if hasattr(n, 'spec') and id(n) in ifa:
+                        self.run.violate('clone-shares-interface-routine',
+                                         f'{where}: the routine {n.name!r} declared in an interface block of the clone '
+                                         f'is the very object held by the original')
+                        return False
         bad = []
         dead = []
         syms = list(self.symbols_of(B))
@@ -506,6 +524,18 @@ class World:
             nv = v.clone(name=f'{v.name}_t{j}', type=v.type.clone(), scope=td)
             td._update(body=tuple(ir.VariableDeclaration(symbols=(nv,)) if n is d else n for n in td.body))
             return nv.name
+        if kind == 'edit_iface':
+            # a routine declared in an interface block of any routine of the copy
+            bodies = [n for rr in self.routines_of(unit) for intf in FindNodes(ir.Interface).visit(rr.spec)
+                      for n in intf.body if hasattr(n, 'spec')]
+            if not bodies:
+                return None
+            ib = bodies[j % len(bodies)]
+            if j % 2:
+                ib.name = f'{ib.name}_i{j}'
+            else:
+                ib.spec.append(ir.Comment(text=f'! interface edit {j}'))
+            return ib.name
         if kind == 'edit_internal':
             if not r.members:
                 return None
